@@ -303,7 +303,7 @@ Lemma read_obj_unfold : forall fuel bound lookups i w, read_obj (S fuel) fs boun
   | None => (w, Some out_of_fuel)
   | Some f =>
       match f_syntax T V f with
-      | Some n => (w, Some (ELoc (Some (f_path T V f)) (Some n)))
+      | Some n => (w, Some (ELoc (Some (f_path T V f)) n))
       | None =>
           match run T V Z world (depf fuel bound (removez i lookups)) (fun n s w0 => add_print (bound, n, s) w0) (f_lines T V f) w with
           | Ok (_, w') => (w', None)
